@@ -49,6 +49,7 @@ recursion through `List Tmpl`), so closed instances reduce by `decide`.
              `!top_level && is_inert_element(node)`; `top_level` is `true` for the roots, for every direct
              child of a fragment and of a component (`fragment_to_tokens` passes `true`), `false` for
              element children (`element_children_to_tokens`).
+* `expHtmlAsync`, `expKidsHtmlAsync`, `macroHtmlStream` — the streaming entry points (`to_html_async_with_buf`).
 * `expHtml`, `expKidsHtml`, `macroHtml` — `to_html()` of that expansion: `HtmlElement::to_html_with_buf`,
              strings (Model/Html `textHtml`), `InertElement::to_html_with_buf` (tachys/src/html/mod.rs:
              pushes the string, position := NextChild).
@@ -356,6 +357,28 @@ end
 
 /-- `view!{ … }.to_html()` for the root nodes `ts` -/
 def macroHtml (ts : List Tmpl) : Str := expKidsHtml true .firstChild (expandKids true ts)
+
+mutual
+/-- `to_html_async_with_buf::<OUT_OF_ORDER>` (the emitter behind `to_html_stream_in_order` /
+`to_html_stream_out_of_order`), as the concatenation of the chunks it hands to `StreamBuilder::push_sync`: an
+`HtmlElement` pushes its opening tag (name from `self.tag.tag()`), streams its children with
+`E::ESCAPE_CHILDREN`, pushes the closing tag (again `self.tag.tag()`); strings and `InertElement` use the
+default implementation (`buf.with_buf(|b| self.to_html_with_buf(b, …))`); tuples stream their members in
+order.  The templates of this grammar contain nothing asynchronous, so no chunk is deferred. -/
+def expHtmlAsync (ooo escape : Bool) (pos : Pos) : Exp → Str
+  | .text s => textHtml escape pos s
+  | .inert h => h
+  | .elem tag attrs kids =>
+    ('<' :: tag ++ attrsHtml attrs ++ ['>']) ++
+      (if isVoid tag then []
+       else expKidsHtmlAsync ooo (escapeChildren tag) .firstChild kids ++ ('<' :: '/' :: tag ++ ['>']))
+def expKidsHtmlAsync (ooo escape : Bool) (pos : Pos) : List Exp → Str
+  | [] => []
+  | e :: es => expHtmlAsync ooo escape pos e ++ expKidsHtmlAsync ooo escape (expPosAfter e) es
+end
+
+/-- `view!{ … }.to_html_stream_in_order()` (`ooo = false`) / `.to_html_stream_out_of_order()` (`true`), collected -/
+def macroHtmlStream (ooo : Bool) (ts : List Tmpl) : Str := expKidsHtmlAsync ooo true .firstChild (expandKids true ts)
 
 mutual
 /-- the expansion with the old compile-time printer -/
